@@ -92,4 +92,57 @@ func runC02(c *rt.Ctx) {
 	}
 	c.Set("depth_bound", depth)
 	c.Set("value_len_cap", maxLen)
+	directedEvictions(c, cfgs)
+}
+
+// directedEvictions: histories one step deeper than the quick tier's search, of the one shape that
+// needs the depth: a key is written, memcached evicts ONE of its L1 entries (the metadata or a
+// chunk), a command changes the key's lifetime, time passes, and then every command is tried. Same
+// oracles as the search: replies equal the reference map's and equal the replies of the same history
+// without the eviction.
+func directedEvictions(c *rt.Ctx, cfgs []Cfg) {
+	item := 5000
+	for _, cfg := range cfgs {
+		if cfg.L1H != "chunked" {
+			continue
+		}
+		bin := cfg.Proto == "binary"
+		lifetimes := []wire.Op{{Kind: "touch", Key: "a", TTL: 3600}, {Kind: "touch", Key: "a", TTL: 0}, {Kind: "append", Key: "a", Val: "s"}}
+		if bin {
+			lifetimes = append(lifetimes, wire.Op{Kind: "gat", Key: "a", TTL: 3600}, wire.Op{Kind: "gat", Key: "a", TTL: 0})
+		}
+		finals := []wire.Op{{Kind: "add", Key: "a", Val: "p", Flags: 1}, {Kind: "get", Key: "a"}, {Kind: "replace", Key: "a", Val: "r", Flags: 2},
+			{Kind: "append", Key: "a", Val: "t"}, {Kind: "delete", Key: "a"}, {Kind: "touch", Key: "a", TTL: 50}}
+		for _, ttl := range []uint32{0, 100} {
+			for _, ev := range []string{"a-0", "a-meta"} {
+				for _, lt := range lifetimes {
+					for _, adv := range []uint32{101, 7200} {
+						for _, fin := range finals {
+							item++
+							if !c.Mine(item) || c.Expired() {
+								continue
+							}
+							ops := []wire.Op{{Kind: "set", Key: "a", Val: "x", Flags: 0xfffffffe, TTL: ttl}, {Kind: "evict-entry", Key: ev}, lt, {Kind: "advance", Sec: adv}, fin}
+							sc := SeqScenario{Harness: "C02", Cfg: cfg, Ops: ops}
+							var r, r2 *SeqResult
+							sc2 := sc
+							sc2.Ops = stripEvictions(ops)
+							InBubble(c.T, func() { r = RunSeq(sc, SeqOpts{CheckSubset: true}) })
+							InBubble(c.T, func() { r2 = RunSeq(sc2, SeqOpts{}) })
+							c.Eval(2)
+							c.Trans(int64(len(ops)))
+							c.Distinct(fmt.Sprintf("directed|%s|%d|%s|%s|%d|%s", cfg, ttl, ev, opTag(lt), adv, fin.Kind))
+							for _, f := range r.Findings {
+								c.Violation(f.Sig, f.What, sc)
+							}
+							if len(r.Findings) == 0 && fmt.Sprint(r.Replies) != fmt.Sprint(r2.Replies) {
+								c.Violation(fmt.Sprintf("C02 eviction-visible op=%s cfg=%s", fin.Kind, cfgClass(cfg)),
+									fmt.Sprintf("replies with the eviction %v differ from replies without %v", r.Replies, r2.Replies), sc)
+							}
+						}
+					}
+				}
+			}
+		}
+	}
 }
